@@ -35,6 +35,12 @@ MANIFEST = {
     'note': 'Trusted: the ~40-line oracle parser/matcher in checks/c19.py; grammar without quoted separators.',
     'technique': 'runtime monitoring: generated-input differential oracle on the live negotiation functions',
 }
+MUST_WORK = [
+    'text/csv -> text/csv',
+    'application/json; format=pandas-records -> application/json',
+    'application/json; format=pandas-columns -> application/json',
+    'application/json; format=pandas-values -> application/json (data only)',
+]
 KINDS = ['application/json', 'text/csv', 'text/html', 'application/xml', 'image/gif']
 WILD = ['*/*', 'application/*', 'text/*', '*/json', 'app*/*son']
 OPTS = [('format', 'pandas-records'), ('format', 'pandas-split'), ('charset', 'utf-8'), ('a', 'x'), ('a', 'y')]
@@ -179,25 +185,28 @@ def check_decoder(ctx, layout, codec, source):
 
 
 def roundtrip_pairs(layout, codec, dsl):
-    """Codec pairs usable here: established by a probe table on the running tree; a pair that fails the *probe* is
-    skipped (environmental), never reported."""
+    """(encoder, decoder) pairs usable here: every registered decoder whose advertised encoding matches the encoder's
+    concrete one; established by a probe table on the running tree - a pair that fails the *probe* is skipped
+    (environmental: pandas 3 broke read_json(str)), never reported."""
     schema = dsl.Schema.from_fields(dsl.Field(dsl.Integer(), name='p'), dsl.Field(dsl.String(), name='q'))
     probe = layout.Outcome(schema, [[1, 'u'], [2, 'v']])
     pairs = []
     for encoder in codec.ENCODERS:
-        try:
-            data = encoder.dumps(probe)
-            decoder = layout.get_decoder(encoder.encoding)
-            entry = decoder.loads(data)
-            rows = [list(r) for r in entry.data.to_rows()]
-        except Exception:  # pylint: disable=broad-except
-            continue
-        if rows == [[1, 'u'], [2, 'v']]:
-            pairs.append(encoder)
+        for decoder, advertised in codec.DECODERS:
+            if not advertised.match(encoder.encoding):
+                continue
+            try:
+                entry = decoder.loads(encoder.dumps(probe))
+                rows = [[v.item() if hasattr(v, 'item') else v for v in r] for r in entry.data.to_rows()]
+            except Exception:  # pylint: disable=broad-except
+                continue
+            if rows == [[1, 'u'], [2, 'v']]:
+                named = [f.name for f in entry.schema] == ['p', 'q']  # e.g. the 'values' format carries no column names
+                pairs.append((encoder, decoder, advertised.header + ('' if named else ' (data only)')))
     return pairs
 
 
-def check_codec(ctx, layout, dsl, encoder, names, rows):
+def check_codec(ctx, layout, dsl, encoder, decoder, names, rows, named=True):
     ctx.count('evaluations')
     ctx.count('codec_checked')
     kinds = []
@@ -206,15 +215,14 @@ def check_codec(ctx, layout, dsl, encoder, names, rows):
     schema = dsl.Schema.from_fields(*(dsl.Field(k, name=n) for k, n in zip(kinds, names)))
     ctx.shape(('codec', encoder.encoding.header, names, [type(v).__name__ for v in rows[0]], len(rows)))
     try:
-        data = encoder.dumps(layout.Outcome(schema, rows))
-        entry = layout.get_decoder(encoder.encoding).loads(data)
+        entry = decoder.loads(encoder.dumps(layout.Outcome(schema, rows)))
         back = [[v.item() if hasattr(v, 'item') else v for v in r] for r in entry.data.to_rows()]
         backnames = [f.name for f in entry.schema]
     except Exception as err:  # pylint: disable=broad-except
         ctx.violation('codec-raises', f'{encoder.encoding.header} round trip of {names} {rows} raised {err!r}',
                       {'encoding': encoder.encoding.header, 'names': names, 'rows': rows})
         return
-    if back != rows or backnames != list(names):
+    if back != rows or (named and backnames != list(names)):
         ctx.violation('codec-roundtrip', f'{encoder.encoding.header}: {names} {rows} -> {backnames} {back}',
                       {'encoding': encoder.encoding.header, 'names': names, 'rows': rows})
 
@@ -279,15 +287,23 @@ def run(ctx):
         check_decoder(ctx, layout, codec, (kind, opts))
     # -------- codec round trips
     usable = roundtrip_pairs(layout, codec, dsl)
-    ctx.note_set('usable_codec_pairs', [e.encoding.header for e in usable])
-    for encoder in usable:
+    labels = [f'{e.encoding.header} -> {h}' for e, _, h in usable]
+    ctx.note_set('usable_codec_pairs', labels)
+    # pairs that work on the pinned tree in this environment must keep working (the pandas-3 read_json(str) pairs are not
+    # listed: their failure is environmental)
+    for must in MUST_WORK:
+        ctx.count('evaluations')
+        ctx.count('codec_checked')
+        if must not in labels:
+            ctx.violation('codec-pair-broken', f'codec pair {must} no longer round-trips the probe table', {'pair': must})
+    for encoder, decoder, label in usable:
         for _ in range(ctx.pick(12, 60)):
             ncols = rng.randint(1, 4)
             names = rng.sample(['a', 'b', 'c', 'd', 'e'], ncols)
             makers = [rng.choice([lambda: rng.randint(-50, 50), lambda: rng.choice(['x', 'yy', 'z z', 'w']),
                                   lambda: rng.randint(-99, 99) + 0.5]) for _ in range(ncols)]
             rows = [[m() for m in makers] for _ in range(rng.randint(1, 5))]
-            check_codec(ctx, layout, dsl, encoder, names, rows)
+            check_codec(ctx, layout, dsl, encoder, decoder, names, rows, named='data only' not in label)
     ctx.sample({'match_universe': len(KINDS + WILD) * len(optsets) * len(KINDS) * len(optsets)})
 
 
@@ -303,6 +319,10 @@ def replay(ctx, witness):
         check_encoder(ctx, layout, codec, [tuple(p) for p in witness['accept']])
     elif 'source' in witness:
         check_decoder(ctx, layout, codec, tuple(witness['source']))
+    elif 'pair' in witness:
+        if witness['pair'] not in [f'{e.encoding.header} -> {h}' for e, _, h in roundtrip_pairs(layout, codec, dsl)]:
+            ctx.violation('codec-pair-broken', f'codec pair {witness["pair"]} no longer round-trips the probe table', witness)
     elif 'rows' in witness:
-        encoder = next(e for e in codec.ENCODERS if e.encoding.header == witness['encoding'])
-        check_codec(ctx, layout, dsl, encoder, witness['names'], witness['rows'])
+        for encoder, decoder, label in roundtrip_pairs(layout, codec, dsl):
+            if encoder.encoding.header == witness['encoding']:
+                check_codec(ctx, layout, dsl, encoder, decoder, witness['names'], witness['rows'], named='data only' not in label)
